@@ -29,6 +29,10 @@ pub enum PsOp {
     /// detaching it: 0 not at all, 1 the object itself (remove_static / unlink), 2 for a link also
     /// every other link of its template and the template. `add` takes static policies only.
     AddObject { id: u8, detach: u8 },
+    /// take the object stored under `from` (static policy, link or template), give it the id `to`
+    /// with `new_id` and hand it to `add` / `add_template`: a renamed static policy or template is
+    /// a new member with the same body when `to` is free; a renamed link is not a static policy
+    AddRenamed { from: u8, to: u8 },
 }
 
 #[derive(Clone, Debug, Serialize, Deserialize)]
@@ -356,6 +360,36 @@ fn apply(cx: &mut Ctx<'_>, ps: &mut PolicySet, m: &mut PModel, op: &PsOp, step: 
             }
             res = ps.add(obj).map_err(|e| e.to_string());
         }
+        PsOp::AddRenamed { from, to } => {
+            name = "add(new_id(object taken from the set))";
+            let to_id = PolicyId::new(pid(*to));
+            m2 = m.clone();
+            match m.get(&pid(*from)).cloned() {
+                Some(PItem::Template(body)) => {
+                    let Some(t) = ps.template(&PolicyId::new(pid(*from))).cloned() else { return Ok(false) };
+                    expect_ok = !m.contains_key(&pid(*to));
+                    if expect_ok {
+                        m2.insert(pid(*to), PItem::Template(body));
+                    }
+                    if main {
+                        cx.obs.count("reach.add_renamed_template");
+                    }
+                    res = ps.add_template(t.new_id(to_id)).map_err(|e| e.to_string());
+                }
+                Some(it) => {
+                    let Some(obj) = ps.policy(&PolicyId::new(pid(*from))).cloned() else { return Ok(false) };
+                    expect_ok = matches!(it, PItem::Static(_)) && !m.contains_key(&pid(*to));
+                    if expect_ok {
+                        m2.insert(pid(*to), it);
+                    }
+                    if main {
+                        cx.obs.count("reach.add_renamed_policy");
+                    }
+                    res = ps.add(obj.new_id(to_id)).map_err(|e| e.to_string());
+                }
+                None => return Ok(false),
+            }
+        }
         PsOp::Merge { .. } | PsOp::RoundTrip { .. } => return Ok(false),
     }
     match (res.is_ok(), expect_ok) {
@@ -581,7 +615,7 @@ fn gen_ops(rng: &mut Rng, n: usize, allow_merge: bool, idpool: usize) -> Vec<PsO
                 id = rng.below(idpool) as u8;
             }
         }
-        let w: &[u32] = if allow_merge { &[6, 4, 9, 3, 3, 3, 3, 1, 1] } else { &[6, 4, 6, 1, 1, 1, 0, 0, 0] };
+        let w: &[u32] = if allow_merge { &[6, 4, 9, 3, 3, 3, 3, 1, 1, 1] } else { &[6, 4, 6, 1, 1, 1, 0, 0, 0, 0] };
         match rng.weighted(w) {
             0 => {
                 if !used(id, &statics, &links, &templates) {
@@ -634,6 +668,17 @@ fn gen_ops(rng: &mut Rng, n: usize, allow_merge: bool, idpool: usize) -> Vec<PsO
                 ops.push(PsOp::Merge { sub, rename: rng.pct(60) });
             }
             7 => ops.push(PsOp::RoundTrip { via: rng.below(2) as u8 }),
+            9 => {
+                let from = if !templates.is_empty() && rng.pct(35) { rng.pick(&templates).0 } else if !statics.is_empty() && rng.pct(75) { *rng.pick(&statics) } else if !links.is_empty() && rng.pct(70) { *rng.pick(&links) } else { rng.below(idpool) as u8 };
+                if !used(id, &statics, &links, &templates) {
+                    if let Some(t) = templates.iter().find(|t| t.0 == from).copied() {
+                        templates.push((id, t.1));
+                    } else if statics.contains(&from) {
+                        statics.push(id);
+                    }
+                }
+                ops.push(PsOp::AddRenamed { from, to: id })
+            }
             _ => {
                 let id = if !links.is_empty() && rng.pct(60) { *rng.pick(&links) } else if !statics.is_empty() && rng.pct(70) { *rng.pick(&statics) } else { id };
                 let detach = rng.below(3) as u8;
@@ -750,7 +795,7 @@ impl World for PolicySetWorld {
         ]
     }
     fn reach_probes(&self) -> Vec<&'static str> {
-        vec!["reach.merge_two_or_more_renamed", "reach.merge_renamed_template_with_links", "reach.merge_conflict_rejected", "reach.merge_role_swap", "reach.remove_template_with_live_links", "reach.link_wrong_slots", "reach.link_to_static_id", "reach.link_to_link_id", "reach.link_to_nothing"]
+        vec!["reach.merge_two_or_more_renamed", "reach.merge_renamed_template_with_links", "reach.merge_conflict_rejected", "reach.merge_role_swap", "reach.remove_template_with_live_links", "reach.link_wrong_slots", "reach.link_to_static_id", "reach.link_to_link_id", "reach.link_to_nothing", "reach.add_link_object_without_its_template", "reach.add_renamed_policy", "reach.add_renamed_template"]
     }
 }
 
